@@ -562,6 +562,10 @@ func ToEntry(n Node) (e *Entry) {
 	if e := ms.getEntryCache(n); e != nil {
 		return e
 	}
+	if !ms.startBuilding(n) {
+		return newError(n, "%s %s has a circular dependency", n.Kind(), n.NName())
+	}
+	defer ms.doneBuilding(n)
 	defer func() {
 		ms.setEntryCache(n, e)
 	}()
